@@ -514,6 +514,17 @@ def _try_read_lock_shape(f):
                         f.walk(v['init'], lambda x: hit.append(1) if (x.get('k') == 'call' and x.get('name') in ('load_acquire', 'load_relaxed')) else None)
                         if hit:
                             st = frozenset()
+            # ... and so does an assignment of a fresh load to the variable that holds the word
+            rhs = None
+            if e.get('k') == 'binop' and e.get('op') == '=':
+                rhs = e['r']
+            elif e.get('k') == 'call' and e.get('ck') == 'op' and e.get('op') == '=' and len(e.get('args', [])) == 2:
+                rhs = e['args'][1]
+            if rhs is not None:
+                hit = []
+                f.walk(rhs, lambda x: hit.append(1) if (x.get('k') == 'call' and x.get('name') in ('load_acquire', 'load_relaxed')) else None)
+                if hit:
+                    st = frozenset()
         return st
 
     def refine(st, blk, i):
